@@ -181,6 +181,18 @@ func Generate(family string, seed int64, idx int) Scenario {
 		genFig8x(r, &sc)
 	case "storefail":
 		genStoreFail(r, &sc)
+	case "snapcfg":
+		p := &sc.P
+		p.Voters, p.NonVoters, p.Spares = pick(r, 1, 3, 3), 0, 1
+		p.PreVoteOff = make([]bool, p.N())
+		p.ApplyDelayMs, p.DelayEvery = pick(r, 10, 30, 60), 1
+		p.PersistDelayMs = pick(r, 0, 10)
+		p.SnapThreshold, p.SnapIntervalS = 8192, 100000
+		p.Trailing = pick[uint64](r, 0, 2, 10240)
+		p.ShutdownOnRemove = false
+		p.RestoreCommitted = false
+		sc.Clients = pick(r, 0, 1)
+		sc.Script = "snapcfg"
 	case "cfgtrunc":
 		p := &sc.P
 		p.Voters, p.NonVoters, p.Spares = pick(r, 3, 3, 5), pick(r, 1, 1, 0), 0
@@ -330,6 +342,11 @@ func genPreVote(r *rand.Rand, sc *Scenario) {
 			}
 		}
 		t += p.HeartbeatMs + r.Intn(4*p.HeartbeatMs)
+		if !mixed && r.Intn(2) == 0 {
+			// the server that will be isolated first receives the leadership through a transfer
+			sc.Steps = append(sc.Steps, Step{At: t, Act: "transfer", N: []int{iso[0]}}, Step{At: t + 3*p.ElectionMs, Act: "burst", N: []int{2}})
+			t += 4 * p.ElectionMs
+		}
 		sc.Steps = append(sc.Steps, Step{At: t, Act: "pv-isolate", N: iso})
 		t += p.ElectionMs * (1 + r.Intn(60))
 		sc.Steps = append(sc.Steps, Step{At: t, Act: "heal"})
@@ -419,7 +436,12 @@ func genCrashPoints(r *rand.Rand, sc *Scenario) {
 	}
 	p.ShutdownOnRemove = false
 	sc.AutoRestartMs = pick(r, 50, 300, 1000)
-	steps, end := randomSteps(r, *p, 6+r.Intn(10), p.Spares > 0)
+	if r.Intn(2) == 0 {
+		// snapshots racing with membership changes on a busy FSM
+		p.ApplyDelayMs, p.DelayEvery = pick(r, 5, 30), pick[uint64](r, 1, 3)
+		p.PersistDelayMs = pick(r, 0, 20, 100)
+	}
+	steps, end := randomSteps(r, *p, 6+r.Intn(10), true)
 	t := 3 * p.HeartbeatMs
 	for i := 0; i < 8+r.Intn(10); i++ {
 		t += p.HeartbeatMs/3 + r.Intn(2*p.HeartbeatMs)
